@@ -604,6 +604,11 @@ fn gen_signer(rng: &mut Rng, sk: SecretKey) -> Signer {
             break;
         }
     }
+    // every other signer is paired with its own NEGATED key instead (same x coordinate, other parity byte):
+    // a different public key for which the signature must not verify either
+    if rng.chance(1, 2) {
+        near = pk.negate(&secp);
+    }
     Signer { sk, pk, near }
 }
 
